@@ -911,6 +911,20 @@ def packed_pats(g):
     return [g.word(a[:4], 5, 40) for _ in range(g.rng.randint(1, 5))]
 
 
+def hi_translate(g, pats):
+    """the same list with a consistent random subset of its byte values moved to the upper half (bit 7 set): vector code
+    that treats bytes as signed lanes or shuffle indices behaves differently there"""
+    vals = sorted(set(b for p in pats for b in p))
+    if not vals:
+        return pats
+    moved = set(g.rng.sample(vals, g.rng.randint(1, len(vals))))
+    tr = {b: (b ^ 0x80) if b in moved else b for b in vals}
+    # keep the translation injective
+    if len(set(tr.values())) != len(vals):
+        return pats
+    return [bytes(tr[b] for b in p) for p in pats]
+
+
 def packed_hay(g, pats):
     """every match offset modulo the vector width, lengths around 16/32/48(+N-1), matches straddling windows
     and in the final partial window, decoy prefixes"""
@@ -936,6 +950,8 @@ def gen_C06(tier, seed):
     reqs = []
     for _ in range(qn(q, 400, 6000)):
         pats = packed_pats(g)
+        if g.rng.random() < 0.3:
+            pats = hi_translate(g, pats)
         mk = g.rng.choice(["lf", "ll"])
         nolim = 1 if (len(pats) > 64 or g.rng.random() < 0.2) else 0
         for _ in range(2):
@@ -1195,6 +1211,8 @@ def custom_C15(run, chk):
     for n in lens:
         for _ in range(2 if q else 5):
             pats = packed_pats(g) if g.rng.random() < 0.6 else pre_pats(g)
+            if g.rng.random() < 0.25:
+                pats = hi_translate(g, pats)
             r = g.rng.random()
             if r < 0.4:
                 hay = bytes(g.rng.randrange(256) for _ in range(n))          # arbitrary bytes
